@@ -26,7 +26,9 @@ PLAN = {
 
 # C04 says "either returns a handle satisfying C01/C03 or a clean error": on the request-size suite a malformed or
 # misplaced handle is a C04 violation as well
-ALSO = {"C04": {"sizes": (("C01", None), ("C03", None)), "ro": (("C09", ("ab", "at", "aa")),)},
+ALSO = {"C04": {"sizes": (("C01", None), ("C03", None)), "ro": (("C09", ("ab", "at", "aa")),),
+                # "... either returns a handle satisfying C01/C03 or returns an error": whatever an allocation call hands out
+                "core": (("C01", ("ab", "at", "aa")), ("C03", ("ab", "at", "aa")))},
         # the read-only clauses of C18 / C20 are judged by the read-only predicates (listed under C09) on the same events
         "C18": {"ro": (("C09", ("truncate",)),)},
         "C20": {"ro": (("C09", ("discard",)),)}}
